@@ -214,7 +214,7 @@ def lzma2_layer(res, binary, hooked, tier, seed, prop, walks):
     if vac:
         raise ToolError("vacuous model: actions never taken: %s" % vac)
     res.add_tlc(mc, "chunk layer vs declarative chunk semantics: Refines, Verdict, SinkPrefix, FramingRejected over all chunk sequences of the bounded model (every reset class after every chunk kind, matches into earlier chunks, one framing fault)")
-    extra = ["--framing-extremes", "--fault-walks", tq(tier, 400, 60000)] if prop == "C17" else []
+    extra = ["--framing-extremes", "--fault-walks", tq(tier, 400, 60000)] if prop == "C17" else (["--dict-reset-probes"] if prop == "C09" else [])
     rep = run_harness(binary, ["lzma2", "--property", prop, "--seed", seed, "--export", mc["out"], "--limit", tq(tier, 60000, 3000000), "--walks", walks] + extra, "%s_l2" % prop)
     res.add_harness(rep, "every exported chunk sequence selected for %s serialised by the spec-driven LZMA2 encoder -> lzma2_decompress / raw Lzma2Decoder / one-block .xz" % prop)
     if tier == "thorough":
